@@ -21,7 +21,13 @@ func (c05) Rule() string {
 
 func (c05) Components() (real, stub []string) { return c03{}.Components() }
 
-func (c05) Gen(rng *rand.Rand, tier string, k int) *Case { return genStratCase(rng, tier) }
+func (c05) Gen(rng *rand.Rand, tier string, k int) *Case {
+	c := genStratCase(rng, tier)
+	if rng.Intn(8) == 0 {
+		c.Shape = ShapeGlitch
+	}
+	return c
+}
 
 func (c05) Shrinks(c *Case) []*Case { return pipeShrinks(c) }
 
@@ -68,6 +74,18 @@ func (c05) Run(c *Case, st *Stats) []Violation {
 			break
 		}
 	}
+	// Decorators zip the inner actions with the closings, so on an empty input they emit nothing
+	// and their operational warm-up reads 0; the warm-up during which only Holds may appear is the
+	// one of the strategy they wrap (Inverse, No-Loss and Stop-Loss cannot act before it does).
+	if H := holdWarmup(c.spec()); H > S && n >= H {
+		for i := 0; i < H && i < len(acts); i++ {
+			if acts[i] != strategy.Hold {
+				add("non-hold-in-warmup", fmt.Sprintf("action %d is %d during the warm-up of %d snapshots of the wrapped strategy", i, acts[i], H))
+				break
+			}
+		}
+		st.Probes["decorator-warm-up-checked"]++
+	}
 	if n >= S {
 		if len(acts) > n {
 			add(fmt.Sprintf("surplus+%d", len(acts)-n), fmt.Sprintf("%d actions for %d snapshots", len(acts), n))
@@ -93,4 +111,15 @@ func (c05) Run(c *Case, st *Stats) []Violation {
 	}
 	st.Probes["action-streams-checked"]++
 	return vs
+}
+
+// holdWarmup returns the operational warm-up of the strategy a chain of decorators wraps.
+func holdWarmup(s SubSpec) int {
+	switch s.Entity {
+	case "decorator.Inverse", "decorator.NoLoss", "decorator.StopLoss":
+		return holdWarmup(s.Subs[0])
+	}
+	c := &Case{}
+	setSpec(c, s)
+	return measureWarmup(c)
 }
